@@ -86,11 +86,25 @@ func itoa(n int) string {
 func runPromStep(s *mwSession, st promStep) (events []M) {
 	switch st.K {
 	case "c":
-		_, fwd, reply, _ := s.clientStep(st.C)
+		if mwStalls >= 4 {
+			return
+		}
+		_, fwd, reply, err := s.clientStep(st.C)
+		if err != nil {
+			mwStalls++
+			events = append(events, M{"sid": st.Sid, "k": "stalled"})
+		}
 		events = append(events, promStepJ(st, M{"fwd": one(fwd, func(m mocrelay.ClientMsg) any { return cmsgJ(m) }), "reply": one(reply, func(m mocrelay.ServerMsg) any { return smsgJ(m) })}, nil))
 		events = append(events, barrierEvents(st.Sid, s.nb)...)
 	case "s":
-		got, _ := s.serverStep(st.S)
+		if mwStalls >= 4 {
+			return
+		}
+		got, err := s.serverStep(st.S)
+		if err != nil {
+			mwStalls++
+			events = append(events, M{"sid": st.Sid, "k": "stalled"})
+		}
 		events = append(events, promStepJ(st, M{"got": one(got, func(m mocrelay.ServerMsg) any { return smsgJ(m) })}, nil))
 		// a server step uses only a NOTICE barrier
 		events = append(events, M{"sid": st.Sid, "k": "s", "msg": smsgJ(mocrelay.NewServerNoticeMsg(barrierID(s.nb))), "barrier": true})
@@ -103,7 +117,7 @@ func genPromMsgs(r *Rng, g *EvGen, n int) []promStep {
 	long := "pppppppppppppppppppppppppppppppppppppppppppppppppppppppppppppppp"
 	subs := []string{"a", "b", "c", long + "-x", long + "-y", long + long + long + long + "1", long + long + long + long + "2"}
 	var steps []promStep
-	for i := 0; i < n; i++ {
+	for i := 0; i < n && mwStalls < 4; i++ {
 		switch r.Intn(12) {
 		case 0, 1, 2:
 			steps = append(steps, promStep{K: "c", C: &mocrelay.ClientReqMsg{SubscriptionID: pick(r, subs), ReqFilters: g.Filters()}})
@@ -158,7 +172,9 @@ func execPromSeq(sessions [][]promStep, order []int, endOrder []int) {
 		st.Sid = i
 		pos[i]++
 		evs := runPromStep(live[i], st)
-		evs[len(evs)-1]["metrics"] = gather(reg)
+		if len(evs) > 0 {
+			evs[len(evs)-1]["metrics"] = gather(reg)
+		}
 		events = append(events, evs...)
 	}
 	for _, i := range order {
@@ -221,7 +237,7 @@ func init() {
 	props["C19"] = propRunner{
 		gen: func(r *Rng, n int, tier string) {
 			g := &EvGen{r: r}
-			for i := 0; i < n; i++ {
+			for i := 0; i < n && mwStalls < 4; i++ {
 				ns := r.Range(1, 3)
 				sessions := make([][]promStep, ns)
 				for s := range sessions {
